@@ -1,0 +1,13 @@
+//go:build !verif
+// +build !verif
+
+// Package verifhook provides observation points for the runtime monitors under
+// /verif. Without the "verif" build tag every hook is an empty function.
+package verifhook
+
+// Yield marks a point at which a monitor may widen thread interleavings.
+func Yield(site string) {}
+
+// Visit reports that the loop at site is processing the entry with the given
+// key.
+func Visit(site string, key interface{}) {}
